@@ -102,7 +102,11 @@ class FakeSocket (object):
   def setblocking (self, b): self.blocking = bool(b)
   def settimeout (self, t): pass
   def setsockopt (self, *a): pass
-  def getpeername (self): return ("10.0.0.%d" % (self._fd % 250 + 1), 6633)
+  def getpeername (self):
+    if getattr(self, "reset_by_peer", False):
+      # (what a socket says once the other side has reset the connection)
+      raise SockErr(errno.ENOTCONN, "Transport endpoint is not connected")
+    return ("10.0.0.%d" % (self._fd % 250 + 1), 6633)
   def getsockname (self): return ("10.0.0.254", 40000 + self._fd % 1000)
 
   def recv (self, n, flags=0):
@@ -112,6 +116,8 @@ class FakeSocket (object):
       e = self.recv_error; self.recv_error = None
       raise SockErr(e, os.strerror(e))
     if not self.rx:
+      if getattr(self, "reset_by_peer", False):
+        raise SockErr(errno.ECONNRESET, "Connection reset by peer")
       if self.eof or self.shut_rd: return b""
       raise BlockingIOError(errno.EAGAIN, "Resource temporarily unavailable")
     k = n
@@ -131,6 +137,9 @@ class FakeSocket (object):
       raise SockErr(errno.EBADF, "Bad file descriptor")
     if self.shut_wr:
       raise SockErr(errno.EPIPE, "Broken pipe")
+    if getattr(self, "reset_by_peer", False):
+      self.dead = True
+      raise SockErr(errno.ECONNRESET, "Connection reset by peer")
     if self.send_script and self.send_script[0] == "eagain_blocked":
       # send buffer full until unblock(): not writable, and a write anyway
       # gets EAGAIN
@@ -183,6 +192,7 @@ class FakeSocket (object):
   # -- readiness (used by virtual_select)
   def readable (self):
     if self.closed: return True
+    if getattr(self, "reset_by_peer", False): return True
     return bool(self.rx) or self.eof or self.recv_error is not None \
         or self.shut_rd
 
